@@ -25,6 +25,7 @@ import (
 	"encoding/json"
 	"fmt"
 	"os"
+	"runtime/pprof"
 	"sort"
 	"strings"
 
@@ -159,6 +160,11 @@ func (ck *checker) fail(env *qh.Env, q *qm.Q, pc qh.PlanCase, what, format strin
 		what += ":" + class
 		// development aid (VERIF_TRIAGE=file prefix): log every failure instead of stopping at five
 		fmt.Fprintf(triage, "[%s] %s | db=%s | %s | %s\n", what, q.Text(), env.Name, pc, msg)
+		return
+	}
+	if class != "" && os.Getenv("VERIF_DEV_KNOWN") != "" {
+		// development aid: behave as if the classes were listed in KNOWN_FINDINGS
+		ck.c.Count("dev_known:"+class, 1)
 		return
 	}
 	ck.c.Fail(class, failCase{Variant: env.Name, Text: q.Text(), Q: q, Plan: pc, What: what},
@@ -369,6 +375,11 @@ func queries(c *lib.Ctx) []work {
 var triage *os.File
 
 func run(c *lib.Ctx) {
+	if pf := os.Getenv("VERIF_PROF"); pf != "" && c.Shard == 0 {
+		f, _ := os.Create(pf)
+		pprof.StartCPUProfile(f)
+		defer pprof.StopCPUProfile()
+	}
 	if pre := os.Getenv("VERIF_TRIAGE"); pre != "" {
 		triage, _ = os.Create(fmt.Sprintf("%s-%d.txt", pre, c.Shard))
 		defer triage.Close()
